@@ -12,6 +12,7 @@ type Handler struct {
 	Yield func(point string)
 	Pause func(point string)
 	Note  func(kind string, a, b int64)
+	Int64 func(point string, v int64) int64
 }
 
 var current atomic.Pointer[Handler]
@@ -40,4 +41,13 @@ func Note(kind string, a, b int64) {
 	if h := current.Load(); h != nil && h.Note != nil {
 		h.Note(kind, a, b)
 	}
+}
+
+// Int64 lets the monitor replace a value the code is about to use (a clock
+// reading, say); without a handler it returns v.
+func Int64(point string, v int64) int64 {
+	if h := current.Load(); h != nil && h.Int64 != nil {
+		return h.Int64(point, v)
+	}
+	return v
 }
